@@ -25,15 +25,39 @@ var sentinels = map[error]string{
 	daemon.ErrInvalidGnetID:               "EInvalidGnetID",
 }
 
+// an address text and its model pair (ip, variant*65536 + port)
 type addr struct {
-	ip   uint32
-	port uint16
+	text string
+	ip   int64
+	p    int64
 }
 
-func (a addr) String() string {
-	return fmt.Sprintf("%d.%d.%d.%d:%d", a.ip>>24, (a.ip>>16)&255, (a.ip>>8)&255, a.ip&255, a.port)
+var byText = map[string]addr{}
+
+// mkAddr registers the text; variant tells texts with the same host and port apart
+// (0 = the canonical rendering ListenAddr() produces)
+func mkAddr(text string, variant int64) addr {
+	i := strings.LastIndex(text, ":")
+	host := strings.Trim(text[:i], "[]")
+	port, err := strconv.Atoi(text[i+1:])
+	if err != nil {
+		panic("c24: bad address text " + text)
+	}
+	a := addr{text: text, ip: hostZ(host), p: variant*65536 + int64(port)}
+	byText[text] = a
+	return a
 }
-func (a addr) coq() string { return in.Ref("a_", "addr", fmt.Sprintf("(%d, %d)", a.ip, a.port)) }
+
+// the host part as the model's ip: IPv4 as a number, known IPv6 hosts beyond 2^32
+func hostZ(h string) int64 {
+	if h == "::1" {
+		return 1<<32 + 1
+	}
+	return parseIP(h)
+}
+
+func (a addr) String() string { return a.text }
+func (a addr) coq() string    { return in.Ref("a_", "addr", fmt.Sprintf("(%d, %d)", a.ip, a.p)) }
 
 var in *Interner
 
@@ -133,17 +157,21 @@ func parseIP(s string) int64 {
 	return v
 }
 
-// an address string of the implementation as a Coq pair; anything that is not
-// ip4:port (e.g. the empty listen address key "") becomes (-1, -1)
+// an address string of the implementation as a Coq pair: a known address text
+// is its model pair; otherwise (a listenAddrs key) "host:port" is the canonical
+// pair (ip, port); anything else (e.g. the empty listen address key "") is (-1, -1)
 func addrCoq(s string) string {
 	bad := in.Ref("a_", "addr", "(-1, -1)")
+	if a, ok := byText[s]; ok {
+		return a.coq()
+	}
 	i := strings.LastIndex(s, ":")
 	if i < 0 {
 		return bad
 	}
-	ip := parseIP(s[:i])
+	ip := hostZ(s[:i])
 	port, err := strconv.Atoi(s[i+1:])
-	if ip < 0 || err != nil {
+	if ip < 0 || err != nil || fmt.Sprint(port) != s[i+1:] {
 		return bad
 	}
 	return in.Ref("a_", "addr", fmt.Sprintf("(%d, %d)", ip, port))
@@ -174,13 +202,13 @@ func dumpCoq(d daemon.VerifC24Dump) string {
 		var inner []string
 		for _, e := range d.Mirrors {
 			if e.Mirror == m {
-				inner = append(inner, in.Ref("zz_", "Z * Z", fmt.Sprintf("(%d, %d)", parseIP(e.IP), e.Port)))
+				inner = append(inner, in.Ref("zz_", "Z * Z", fmt.Sprintf("(%d, %d)", hostZ(e.IP), e.Port)))
 			}
 		}
 		ms = append(ms, in.Ref("me_", "Z * list (Z * Z)", Tuple(zref(int64(m)), in.Ref("mi_", "list (Z * Z)", List(inner)))))
 	}
 	for _, e := range d.IPCounts {
-		ic = append(ic, in.Ref("zz_", "Z * Z", fmt.Sprintf("(%d, %s)", parseIP(e.IP), ZI(int64(e.N)))))
+		ic = append(ic, in.Ref("zz_", "Z * Z", fmt.Sprintf("(%d, %s)", hostZ(e.IP), ZI(int64(e.N)))))
 	}
 	for _, e := range d.GnetIDs {
 		gs = append(gs, in.Ref("ge_", "Z * addr", Tuple(zref(int64(e.ID)), addrCoq(e.Addr))))
@@ -250,13 +278,12 @@ func run(args []string) error {
 	var samples []map[string]interface{}
 
 	// ---------------- universe of the bounded-exhaustive part
-	ips := []uint32{1<<24 | 1, 1<<24 | 2}
-	ports := []uint16{0, 6000}
-	var addrs []addr
-	for _, ip := range ips {
-		for _, p := range ports {
-			addrs = append(addrs, addr{ip, p})
-		}
+	// two IPv4 hosts with ports 0 / 6000, plus address texts that differ from the
+	// canonical rendering of their ip and port: a zero-padded port (same host and
+	// listen address as 1.0.0.1:6000) and a bracketed IPv6 host
+	addrs := []addr{
+		mkAddr("1.0.0.1:0", 0), mkAddr("1.0.0.1:6000", 0), mkAddr("1.0.0.1:06000", 1),
+		mkAddr("1.0.0.2:6000", 0), mkAddr("[::1]:6060", 2),
 	}
 	ids := []uint64{0, 1, 2, 3}
 	var universe []op
@@ -278,7 +305,7 @@ func run(args []string) error {
 	maxExpand := 600
 	if f.Tier == "thorough" || f.Tier == "search" {
 		depth = 6
-		maxExpand = 1200000
+		maxExpand = 9000
 	}
 	// breadth-first over the distinct states of the implementation: every
 	// operation of the universe is applied in every distinct state reachable by
@@ -361,8 +388,14 @@ func run(args []string) error {
 
 	// ---------------- random sequences (length 40, then every connection removed)
 	nseq := f.Budget(60, 1500)
-	rips := []uint32{1<<24 | 1, 1<<24 | 2, 10<<24 | 3}
-	rports := []uint16{0, 6000, 6001}
+	var raddrs []addr
+	for _, h := range []string{"1.0.0.1", "1.0.0.2", "10.0.0.3"} {
+		for _, p := range []string{"0", "6000", "6001"} {
+			raddrs = append(raddrs, mkAddr(h+":"+p, 0))
+		}
+	}
+	raddrs = append(raddrs, mkAddr("1.0.0.1:06000", 1), mkAddr("10.0.0.3:006001", 1), mkAddr("1.0.0.2:00", 1),
+		mkAddr("[::1]:6060", 2), mkAddr("[::1]:06060", 3), mkAddr("[::1]:0", 2))
 	var rnd []string
 	for i := 0; i < nseq; i++ {
 		c := daemon.NewConnections()
@@ -371,7 +404,7 @@ func run(args []string) error {
 		wantStale := r.Chance(15) // a minority of sequences reuse live ids (correspondence only)
 		var steps []string
 		var trace []string
-		pick := func() addr { return addr{rips[r.Intn(len(rips))], rports[r.Intn(len(rports))]} }
+		pick := func() addr { return raddrs[r.Intn(len(raddrs))] }
 		do := func(oper op) {
 			pre := c.VerifC24Dump()
 			if !fresh(pre, oper) {
@@ -390,14 +423,7 @@ func run(args []string) error {
 			// mostly sensible events on existing connections, some arbitrary ones
 			if len(d.Conns) > 0 && r.Chance(70) {
 				x := d.Conns[r.Intn(len(d.Conns))]
-				var a addr
-				for _, ip := range rips {
-					for _, p := range rports {
-						if (addr{ip, p}).String() == x.Addr {
-							a = addr{ip, p}
-						}
-					}
-				}
+				a := byText[x.Addr]
 				id := x.GnetID
 				if r.Chance(10) {
 					id = uint64(r.Intn(4))
@@ -438,13 +464,7 @@ func run(args []string) error {
 		d := c.VerifC24Dump()
 		sort.Slice(d.Conns, func(i, j int) bool { return d.Conns[i].Addr < d.Conns[j].Addr })
 		for _, x := range d.Conns {
-			for _, ip := range rips {
-				for _, p := range rports {
-					if (addr{ip, p}).String() == x.Addr {
-						do(op{kind: kRemove, a: addr{ip, p}, id: x.GnetID})
-					}
-				}
-			}
+			do(op{kind: kRemove, a: byText[x.Addr], id: x.GnetID})
 		}
 		rnd = append(rnd, Tuple(B(allFresh), List(steps)))
 		caseJSON["rand"] = append(caseJSON["rand"], map[string]interface{}{"fresh": allFresh, "ops": strings.Join(trace, "; ")})
@@ -452,7 +472,7 @@ func run(args []string) error {
 	}
 	o.Def("cases_rand", "bool * list (op * res err * st)", rnd)
 
-	o.Side["rule"] = fmt.Sprintf("bounded-exhaustive: every operation of a universe of %d operations (2 IPs x ports {0,6000}, gnet ids {0..3}, mirrors {0,1}, intro listen ports {0,7000}, SetHeight) applied in every distinct state of the real maps reachable by < %d fresh operations (%d states expanded, depth reached %d, truncated=%v); plus %d random sequences of 40 events over 3 IPs x 3 ports followed by removing every connection, maps dumped after every event. Non-trivial = the operation succeeded or changed the maps; distinct by (state, operation)", len(universe), depth, expanded, maxDepthDone, truncated, nseq)
+	o.Side["rule"] = fmt.Sprintf("bounded-exhaustive: every operation of a universe of %d operations (addresses 1.0.0.1:0, 1.0.0.1:6000, 1.0.0.1:06000 (zero-padded port), 1.0.0.2:6000, [::1]:6060 (bracketed host), gnet ids {0..3}, mirrors {0,1}, intro listen ports {0,7000}, SetHeight) applied in every distinct state of the real maps reachable by < %d fresh operations (%d states expanded, depth reached %d, truncated=%v); plus %d random sequences of 40 events over 3 IPv4 hosts x 3 ports plus zero-padded and bracketed IPv6 address texts, followed by removing every connection, maps dumped after every event. Non-trivial = the operation succeeded or changed the maps; distinct by (state, operation)", len(universe), depth, expanded, maxDepthDone, truncated, nseq)
 	o.Side["distribution"] = hist.Sorted()
 	o.Side["samples"] = samples
 	o.Side["cases"] = caseJSON
